@@ -132,6 +132,32 @@ def _cms_job(job):
     return st
 
 
+def _cms_heavy(_):
+    """weights far above 16 bits on a few items (cells must not wrap below the accumulated weight)"""
+    st = Stats()
+    for depth, width in ((1, 4), (3, 7), (6, 2 ** 15)):
+        np.random.seed(depth)
+        cms = make_cms(depth, width, None)
+        true, total = Counter(), 0
+        for step, (item, w) in enumerate([(0, 40000), ('a', 70000), (0, 40000), (1, 1), ('a', 1000000), (-1, 65536), (0, 3)]):
+            ok, r = safe(cms.add, item, w)
+            st.count('transitions')
+            st.count('evaluations')
+            st.count('heavy_updates')
+            case = {'family': 'cms_heavy', 'depth': depth, 'width': width, 'step': step}
+            if not ok:
+                st.violation(case, f'add({item!r},{w}) raised {r}', {'family': 'cms_heavy', 'kind': 'exception'})
+                break
+            true[item] += w
+            total += w
+            fails = cms_invariants(cms, true, total)
+            if fails:
+                st.violation(case, '; '.join(fails[:3]), {'family': 'cms_heavy', 'kind': 'bounds'})
+                break
+    st.count('traces_validated')
+    return st
+
+
 def _cms_large(job):
     depth, width, seed = job
     st = Stats()
@@ -236,7 +262,7 @@ def _counter_job(job):
 
 def _dispatch(item):
     k, job = item
-    return {'cms': _cms_job, 'large': _cms_large, 'counter': _counter_job}[k](job)
+    return {'cms': _cms_job, 'large': _cms_large, 'counter': _counter_job, 'heavy': _cms_heavy}[k](job)
 
 
 def run(ctx):
@@ -253,6 +279,7 @@ def run(ctx):
     widths = (7, 2 ** 10, 2 ** 15)
     jobs += [('large', (d, w, ctx.seed * 100 + d)) for d in range(1, 9) for w in widths]
     jobs += [('counter', (b, 6 if ctx.thorough else 5)) for b in range(0, 6)]
+    jobs.append(('heavy', None))
     for st in pmap(_dispatch, jobs):
         ctx.stats.merge(st)
     if ctx.stats.n.get('not_closed'):
@@ -264,6 +291,8 @@ def run(ctx):
 
 def eval_case(case):
     fam = case.get('family')
+    if fam == 'cms_heavy':
+        return [v['what'] for v in _cms_heavy(None).violations]
     if fam == 'cms_large':
         st = _cms_large((case['depth'], case['width'], case['seed']))
         return [v['what'] for v in st.violations]
